@@ -248,129 +248,190 @@ def _rec_fields(obj, fields):
     return {f: obj[f] for f in fields}
 
 
-def _find_record(secdata, enc, le, got, fields):
+def _find_record(loc, enc, le, got, fields, exp_off):
+    """Where in the file do the bytes of the decoded record sit (other than the expected place)?
+    -> offset relative to the section start, or None."""
+    filedata, sec_off = loc
     try:
         if not all(_isint(got[f]) for f in fields):
             return None
         blob = enc(le, got)
     except Exception:  # noqa
         return None
-    k = secdata.find(blob)
-    return k if k >= 0 else None
+    k = filedata.find(blob)
+    while k >= 0:
+        if k != sec_off + exp_off:
+            return k - sec_off
+        k = filedata.find(blob, k + 1)
+    return None
 
 
-def cmp_record(ctx, case, what, got, exp_fields, fields, where, secdata, enc, exp_off):
-    """Compare one decoded record.  Returns True when it is the expected record."""
+def cmp_record(ctx, case, what, via, got, exp_fields, fields, where, loc, enc, exp_off):
+    """Compare one decoded record.  Returns True when it is the expected record.
+    via: the link through which the record is reached (names the misfollowed displacement)."""
     bad = [f for f in fields if not (_isint(got[f]) and got[f] == exp_fields[f])]
     if not bad:
         return True
-    if len(bad) >= 2:
-        at = _find_record(secdata, enc, case['le'], got, fields)
-        ctx.fail('%s|wrong-record' % what,
-                 '%s: expected the record at section offset %#x %r, decoded %r%s' % (
-                     where, exp_off, exp_fields, got,
-                     (' which is what sits at section offset %#x' % at) if at is not None else ''), case)
+    at = _find_record(loc, enc, case['le'], got, fields, exp_off)
+    if at is not None:
+        ctx.fail('%s|wrong-offset|via=%s' % (what, via),
+                 '%s: expected the record at section offset %#x %r; decoded %r, which is what sits at section offset %#x' % (
+                     where, exp_off, exp_fields, got, at), case)
     else:
-        f = bad[0]
-        ctx.fail('%s|field|%s' % (what, f), '%s: %s encoded %#x decoded %r' % (where, f, exp_fields[f], got[f]), case)
+        ctx.fail('%s|fields|%s' % (what, '+'.join(bad)), '%s (section offset %#x): encoded %r decoded %r' % (
+            where, exp_off, exp_fields, got), case)
     return False
 
 
-def cmp_aux_chain(ctx, case, kind, what, aux_iter, exp_aux, where, secdata):
+def cmp_aux_chain(ctx, case, kind, what, aux_iter, exp_aux, where, loc):
     """Consume an auxiliary iterator and compare the chain.  -> True if identical."""
     K = KIND[kind]
+    p, ap = K['p'], K['ap']
+    lst = []
+    exc = None
     try:
-        lst = list(aux_iter)
+        for a in aux_iter:
+            lst.append(a)
+            if len(lst) > len(exp_aux) + 2:
+                break
     except Exception as e:  # noqa
-        ctx.fail_exc('%s.aux-iter' % what, e, case, where)
-        return False
+        exc = e     # judged after the records obtained so far: a wrong record explains a later exception
     ok = True
-    if len(lst) != len(exp_aux):
-        ctx.fail('%s.aux|count' % what, '%s: %d auxiliaries encoded, %d yielded' % (where, len(exp_aux), len(lst)), case)
-        ok = False
     for j, (a, ea) in enumerate(zip(lst, exp_aux)):
         w = '%s aux[%d]' % (where, j)
         try:
             got = _rec_fields(a, K['afields'])
+            nm = a.name
         except Exception as e:  # noqa
-            ctx.fail_exc('%s.aux-fields' % what, e, case, w)
+            ctx.fail_exc('%s.aux|shape' % what, e, case, w)
             return False
-        if not cmp_record(ctx, case, '%s.aux' % what, got, ea['fields'], K['afields'], w, secdata, K['aenc'], ea['off']):
+        via = (p + '_aux') if j == 0 else (ap + '_next')
+        if not cmp_record(ctx, case, '%s.aux' % what, via, got, ea['fields'], K['afields'], w, loc, K['aenc'], ea['off']):
             return False    # the rest of the chain hangs off a wrong record
-        if a.name != ea['name']:
+        if nm != ea['name']:
             ctx.fail('%s.aux|name' % what, '%s: name offset %#x is %r in the linked string table, reported %r' % (
-                w, ea['fields'][K['ap'] + '_name'], ea['name'], a.name), case)
+                w, ea['fields'][ap + '_name'], ea['name'], nm), case)
             ok = False
+    if exc is not None:
+        ctx.fail_exc('%s.aux-walk|via=%s' % (what, (p + '_aux') if not lst else (ap + '_next')), exc, case,
+                     '%s after %d of %d auxiliaries' % (where, len(lst), len(exp_aux)))
+        return False
+    if len(lst) != len(exp_aux):
+        ctx.fail('%s.aux|count' % what, '%s: %d auxiliaries encoded, %s yielded' % (
+            where, len(exp_aux), len(lst) if len(lst) <= len(exp_aux) + 2 else 'more'), case)
+        ok = False
     return ok
 
 
-def cmp_entry(ctx, case, kind, what, ver, exp, where, secdata):
+def cmp_entry(ctx, case, kind, what, via, ver, exp, where, loc):
     K = KIND[kind]
     try:
         got = _rec_fields(ver, K['efields'])
+        nm = ver.name
     except Exception as e:  # noqa
-        ctx.fail_exc('%s.entry-fields' % what, e, case, where)
+        ctx.fail_exc('%s.entry|shape' % what, e, case, where)
         return False
-    if not cmp_record(ctx, case, '%s.entry' % what, got, exp['fields'], K['efields'], where, secdata, K['eenc'], exp['off']):
+    if not cmp_record(ctx, case, '%s.entry' % what, via, got, exp['fields'], K['efields'], where, loc, K['eenc'], exp['off']):
         return False
-    if kind == 'need' and ver.name != exp['name']:
+    if kind == 'need' and nm != exp['name']:
         ctx.fail('%s.entry|name' % what, '%s: vn_file %#x is %r in the linked string table, reported %r' % (
-            where, exp['fields']['vn_file'], exp['name'], ver.name), case)
+            where, exp['fields']['vn_file'], exp['name'], nm), case)
+        return False
     return True
 
 
-def check_version_section(ctx, case, kind, sec, exp, secdata, queries):
+def check_version_section(ctx, case, kind, sec, exp, loc, queries):
     K = KIND[kind]
+    p = K['p']
     what = 'ver' + kind
     if type(sec).__name__ != K['cls']:
         ctx.fail('%s|class' % what, 'section object is %s' % type(sec).__name__, case)
         return
-    # has_indexes first on some cases, so that its memo is filled before / after the other walks
-    hi_first = kind == 'need' and case.get('has_indexes_first')
+    # has_indexes is memoised: on some cases it is called before anything else on the section object, on others
+    # after all walks, on others twice.  A result obtained before the walk is only judged once the walk is known
+    # to be right (a wrong walk makes has_indexes/get_version wrong as a consequence, not as a separate cause).
     exp_hi = any(a['fields']['vna_other'] != 0 for e in exp for a in e['aux']) if kind == 'need' else None
+    hi_calls = []
 
-    hi_seen = []
-
-    def check_hi(tag):
+    def call_hi(tag):
         try:
-            r = sec.has_indexes()
+            hi_calls.append((tag, 'ok', sec.has_indexes()))
         except Exception as e:  # noqa
-            ctx.fail_exc('verneed.has_indexes', e, case)
-            return
-        if hi_seen and r is not hi_seen[0]:
-            ctx.fail('verneed.has_indexes|second-call-differs', 'first call %r, %s call %r' % (hi_seen[0], tag, r), case)
-        elif not hi_seen and r is not exp_hi:
-            ctx.fail('verneed.has_indexes|wrong', '%s: expected %r got %r (vna_other values %r)' % (
-                tag, exp_hi, r, [a['fields']['vna_other'] for e in exp for a in e['aux']]), case)
-        hi_seen.append(r)
-        ctx.count('has_indexes.%s' % exp_hi)
+            hi_calls.append((tag, 'exc', e))
 
-    if hi_first:
-        check_hi('first-call')
+    hi_mode = case.get('has_indexes_first') if kind == 'need' else None
+    if hi_mode is True:
+        call_hi('first-call-before-walks')
+    clean = True
     try:
         n = sec.num_versions()
         if n != len(exp):
             ctx.fail('%s.num_versions' % what, 'sh_info %d reported %r' % (len(exp), n), case)
+            clean = False
     except Exception as e:  # noqa
         ctx.fail_exc('%s.num_versions' % what, e, case)
+        clean = False
 
     # iter_versions, auxiliaries consumed inline or after the outer walk finished
     deferred = case.get('consume') == 'deferred'
     pairs = []
-    walk_ok = True
+    it = None
     try:
-        for ver, aux_it in sec.iter_versions():
-            pairs.append((ver, aux_it if deferred else list(aux_it)))
+        it = iter(sec.iter_versions())
     except Exception as e:  # noqa
-        ctx.fail_exc('%s.iter_versions' % what, e, case, 'after %d of %d entries' % (len(pairs), len(exp)))
-        walk_ok = False
-    if walk_ok and len(pairs) != len(exp):
-        ctx.fail('%s.iter|count' % what, '%d entries encoded, %d yielded' % (len(exp), len(pairs)), case)
+        ctx.fail_exc('%s.iter_versions' % what, e, case)
+        clean = False
+    walk_exc = None
+    while it is not None and clean:
+        try:
+            ver, aux_it = next(it)
+        except StopIteration:
+            break
+        except Exception as e:  # noqa
+            walk_exc = e    # judged after the entries obtained so far: a wrong record explains a later exception
+            break
+        pairs.append((ver, aux_it if deferred else list_or_exc(aux_it)))
+        if len(pairs) > len(exp) + 2:
+            break
     for i, ((ver, aux_it), e) in enumerate(zip(pairs, exp)):
         where = '%s entry[%d]' % (K['name'], i)
-        if not cmp_entry(ctx, case, kind, what + '.iter', ver, e, where, secdata):
+        via = 'section-start' if i == 0 else p + '_next'
+        if not cmp_entry(ctx, case, kind, what + '.iter', via, ver, e, where, loc):
+            clean = False
+            walk_exc = None
             break   # later entries hang off a wrong record
-        cmp_aux_chain(ctx, case, kind, what + '.iter', aux_it, e['aux'], where, secdata)
+        if not cmp_aux_chain(ctx, case, kind, what + '.iter', aux_it, e['aux'], where, loc):
+            clean = False
+    if walk_exc is not None:
+        ctx.fail_exc('%s.iter.entry-walk|via=%s' % (what, 'section-start' if not pairs else p + '_next'), walk_exc, case,
+                     'after %d of %d entries' % (len(pairs), len(exp)))
+        clean = False
+    elif clean and len(pairs) != len(exp):
+        ctx.fail('%s.iter|count' % what, '%d entries encoded, %s yielded' % (
+            len(exp), len(pairs) if len(pairs) <= len(exp) + 2 else 'more'), case)
+        clean = False
+
+    if kind == 'need':
+        if hi_mode is not True:
+            call_hi('first-call-after-walks')
+        if hi_mode is not None:
+            call_hi('second-call')
+    if not clean:
+        ctx.count('skipped.dependent-checks.%s' % kind)
+        return
+
+    # has_indexes
+    for k, (tag, st_, r) in enumerate(hi_calls):
+        if st_ == 'exc':
+            ctx.fail_exc('verneed.has_indexes', r, case, tag)
+            break
+        if k == 0:
+            if r is not exp_hi:
+                ctx.fail('verneed.has_indexes|wrong', '%s: expected %r got %r (vna_other values %r)' % (
+                    tag, exp_hi, r, [a['fields']['vna_other'] for e in exp for a in e['aux']][:20]), case)
+            ctx.count('has_indexes.%s' % exp_hi)
+        elif r is not hi_calls[0][2]:
+            ctx.fail('verneed.has_indexes|second-call-differs', '%s %r, %s %r' % (hi_calls[0][0], hi_calls[0][2], tag, r), case)
 
     # get_version
     for q in queries:
@@ -386,20 +447,20 @@ def check_version_section(ctx, case, kind, sec, exp, secdata, queries):
         if not carriers:
             ctx.count('query.%s.miss' % kind)
             if r is not None:
-                ctx.fail('%s.get_version|miss|not-none' % what, 'no record carries index %#x, got %r' % (q, _describe(kind, r)), case)
+                ctx.fail('%s.get_version|miss|not-none' % what, 'no record carries index %#x, got %s' % (q, _describe(kind, r)), case)
             continue
         ctx.count('query.%s.hit' % kind)
         if len(carriers) > 1:
             ctx.count('query.%s.hit-duplicate' % kind)
         if r is None:
-            ctx.fail('%s.get_version|hit|none' % what, 'index %#x is carried by %r, got None' % (q, carriers), case)
+            ctx.fail('%s.get_version|hit|none' % what, 'index %#x is carried by %r, got None' % (q, carriers[:4]), case)
             continue
         try:
             ver, second = r
             gotf = _rec_fields(ver, K['efields'])
+            gotn = ver.name
             if kind == 'def':
-                auxl = list(second)
-                gota = [(_rec_fields(a, K['afields']), a.name) for a in auxl]
+                gota = [(_rec_fields(a, K['afields']), a.name) for a in second]
             else:
                 gota = (_rec_fields(second, K['afields']), second.name)
         except Exception as e:  # noqa
@@ -411,31 +472,45 @@ def check_version_section(ctx, case, kind, sec, exp, secdata, queries):
             if gotf != e['fields']:
                 continue
             if kind == 'def':
-                if gota == [(a['fields'], a['name']) for a in e['aux']]:
-                    match = True
+                match = gota == [(a['fields'], a['name']) for a in e['aux']]
             else:
                 a = e['aux'][j]
-                if gota == (a['fields'], a['name']) and ver.name == e['name']:
-                    match = True
+                match = gota == (a['fields'], a['name']) and gotn == e['name']
             if match:
                 break
         if not match:
-            ctx.fail('%s.get_version|hit|wrong-result' % what, 'index %#x is carried by %r; got %s' % (
-                q, [(c, exp[c[0]]['fields']) for c in carriers][:3], _describe(kind, r, gotf, gota)), case)
-    if kind == 'need':
-        check_hi('after-walks' if not hi_first else 'memoised')
-        if case.get('has_indexes_first') is False:
-            check_hi('memoised')
+            ctx.fail('%s.get_version|hit|wrong-result' % what, 'index %#x is carried by (entry, aux) %r; got entry %r name %r with %r' % (
+                q, [(c, exp[c[0]]['fields']) for c in carriers][:3], gotf, gotn, gota), case)
 
 
-def _describe(kind, r, gotf=None, gota=None):
+class _Raised:
+    """An auxiliary iterator that failed while being consumed inline: re-raises when walked by cmp_aux_chain."""
+    def __init__(self, items, exc):
+        self.items, self.exc = items, exc
+
+    def __iter__(self):
+        for x in self.items:
+            yield x
+        raise self.exc
+
+
+def list_or_exc(aux_it):
+    out = []
+    try:
+        for a in aux_it:
+            out.append(a)
+            if len(out) > 64:
+                break
+    except Exception as e:  # noqa
+        return _Raised(out, e)
+    return out
+
+
+def _describe(kind, r):
     try:
         ver, second = r
-        if gotf is None:
-            gotf = dict(ver.entry)
-        if gota is None:
-            gota = '<iterator>' if kind == 'def' else (dict(second.entry), second.name)
-        return 'entry %r name %r with %r' % (gotf, getattr(ver, 'name', None), gota)
+        return 'entry %r name %r with %r' % (dict(ver.entry), getattr(ver, 'name', None),
+                                             '<iterator>' if kind == 'def' else (dict(second.entry), second.name))
     except Exception:  # noqa
         return repr(r)
 
@@ -455,7 +530,6 @@ def check_versym(ctx, case, sec, ndxs, symnames):
     if type(sec).__name__ != 'GNUVerSymSection':
         ctx.fail('versym|class', 'section object is %s' % type(sec).__name__, case)
         return
-    n = None
     try:
         n = sec.num_symbols()
         if n != len(ndxs):
@@ -463,47 +537,57 @@ def check_versym(ctx, case, sec, ndxs, symnames):
     except Exception as e:  # noqa
         ctx.fail_exc('versym.num_symbols', e, case)
 
-    def cmp(tag, i, sym):
-        try:
-            g = sym['ndx']
-            nm = sym.name
-        except Exception as e:  # noqa
-            ctx.fail_exc('versym.%s|shape' % tag, e, case, 'entry %d' % i)
-            return
-        c = check_ndx(g, ndxs[i])
-        if c:
-            ctx.fail('versym.%s|ndx|%s' % (tag, c), 'entry %d: encoded %#x reported %r' % (i, ndxs[i], g), case)
-        if nm != symnames[i]:
-            ctx.fail('versym.%s|name' % tag, 'entry %d: dynsym[%d] is named %r, reported %r (names %r)' % (
-                i, i, symnames[i], nm, symnames[:8]), case)
-        ctx.count('versym.ndx.%s' % ('named' if isinstance(g, str) else 'hidden' if ndxs[i] & 0x8000 else 'plain'))
-
+    seen = {}
+    clean = True
     order = case.get('sym_query_order')
     if order is None:
         order = list(range(len(ndxs)))
     for i in order:
         try:
             sym = sec.get_symbol(i)
+            g, nm = sym['ndx'], sym.name
         except Exception as e:  # noqa
             ctx.fail_exc('versym.get_symbol', e, case, 'entry %d of %d' % (i, len(ndxs)))
+            clean = False
             continue
-        cmp('get_symbol', i, sym)
+        seen[i] = (g, nm)
+        c = check_ndx(g, ndxs[i])
+        if c:
+            ctx.fail('versym.entry|ndx|%s' % c, 'get_symbol(%d): encoded %#x reported %r' % (i, ndxs[i], g), case)
+            clean = False
+        if nm != symnames[i]:
+            ctx.fail('versym.entry|name', 'get_symbol(%d): dynsym[%d] is named %r, reported %r (names %r)' % (
+                i, i, symnames[i], nm, symnames[:8]), case)
+            clean = False
+        ctx.count('versym.ndx.%s' % ('named' if isinstance(g, str) else 'hidden' if ndxs[i] & 0x8000 else 'plain'))
+    # iter_symbols must give the same sequence; it is only judged on its own when get_symbol was right
     try:
-        lst = list(sec.iter_symbols())
+        lst = []
+        for sym in sec.iter_symbols():
+            lst.append((sym['ndx'], sym.name))
+            if len(lst) > len(ndxs) + 2:
+                break
     except Exception as e:  # noqa
-        ctx.fail_exc('versym.iter_symbols', e, case)
+        if clean:
+            ctx.fail_exc('versym.iter_symbols', e, case)
+        return
+    if not clean:
         return
     if len(lst) != len(ndxs):
-        ctx.fail('versym.iter_symbols|count', '%d entries encoded, %d yielded' % (len(ndxs), len(lst)), case)
-    for i, sym in enumerate(lst[:len(ndxs)]):
-        cmp('iter_symbols', i, sym)
+        ctx.fail('versym.iter_symbols|count', '%d entries encoded, %s yielded' % (
+            len(ndxs), len(lst) if len(lst) <= len(ndxs) + 2 else 'more'), case)
+        return
+    for i, pair in enumerate(lst):
+        if pair != seen.get(i):
+            ctx.fail('versym.iter_symbols|differs-from-get_symbol', 'position %d: iter_symbols gives %r, get_symbol(%d) gave %r' % (
+                i, pair, i, seen.get(i)), case)
+            break
 
 
 def run_case(ctx, case):
     data, info = build_file(case)      # an exception here is a generator/encoder bug -> harness error
     ELFFile = lib()['ELFFile']
     idx = info['idx']
-    feats = []
     try:
         ef = ELFFile(io.BytesIO(data))
     except Exception as e:  # noqa
@@ -518,7 +602,8 @@ def run_case(ctx, case):
         except Exception as e:  # noqa
             ctx.fail_exc('ver%s.get_section' % kind, e, case)
             continue
-        check_version_section(ctx, case, kind, sec, info[kind], info[kind + '_data'], case['queries'].get(kind, []))
+        loc = (data, info['R']['sh'][idx[kind]]['sh_offset'])
+        check_version_section(ctx, case, kind, sec, info[kind], loc, case['queries'].get(kind, []))
     if 'versym' in idx:
         try:
             sec = ef.get_section(idx['versym'])
@@ -549,7 +634,6 @@ def _register(ctx, case, info, data):
             ctx.count('noncontiguous.%s' % kind)
         if any(len(e['aux']) >= 2 for e in exp):
             ctx.count('multi-aux.%s' % kind)
-        key = 'vd_ndx' if kind == 'def' else None
         if kind == 'def':
             vals = [e['fields']['vd_ndx'] for e in exp]
         else:
@@ -622,6 +706,8 @@ def gen_indices(ch, n, scheme):
         return [k + 2 for k in range(n)]
     if scheme == 'zero':
         return [0] * n
+    if scheme == 'hidden0':     # only 0 and the bare hidden bit: 'has an index' must not depend on the low 15 bits
+        return [(0x8000 if k == n - 1 else 0) for k in range(n)]
     if scheme == 'hidden':
         return [(k + 2) | (0x8000 if k % 2 else 0) for k in range(n)]
     return [pick_index(ch) for _ in range(n)]
@@ -680,7 +766,7 @@ def build_model(ch, tier, force=None):
         n = F['n'] if 'n' in F else ch.choice([0, 1, 2, 2, 3, 5, ch.int(0, 12)])
         counts = F['counts'] if 'counts' in F else [ch.choice([1, 1, 2, 3, ch.int(1, 5)]) for _ in range(n)]
         mode = F['mode'] if 'mode' in F else ch.choice(MODES)
-        scheme = F['scheme'] if 'scheme' in F else ch.choice(['seq', 'seq2', 'hidden', 'random', 'random', 'random', 'zero'])
+        scheme = F['scheme'] if 'scheme' in F else ch.choice(['seq', 'seq2', 'hidden', 'hidden0', 'random', 'random', 'random', 'zero'])
         ents = []
         if kind == 'def':
             ix = gen_indices(ch, n, scheme)
@@ -702,7 +788,7 @@ def build_model(ch, tier, force=None):
                       'tail': ch.choice([0, 0, 4, 20]), 'fill': ch.choice([0xCC, 0x00, 0xFF, 0x01, ch.int(0, 255)])}
         case['queries'][kind] = gen_queries(ch, vals, full_q)
         roles.append(kind)
-    nsym = F['nsym'] if 'nsym' in F else ch.choice([0, 1, 2, 4, ch.int(0, 20)])
+    nsym = F['nsym'] if 'nsym' in F else ch.choice([0, 1, 2, 4, 8, ch.int(0, 20), ch.int(0, 20)])
     symn = ch.perm(names)
     syms = []
     for k in range(nsym):
@@ -749,7 +835,7 @@ def sweep(tier):
                         for mode in MODES:
                             if n == 0 and mode != 'dense':
                                 continue
-                            for scheme in ('seq', 'hidden', 'random', 'zero'):
+                            for scheme in ('seq', 'hidden', 'hidden0', 'random', 'zero'):
                                 seed += 1
                                 ch = RndChooser(15000 + seed)
                                 cases.append(build_model(ch, tier, {
